@@ -165,6 +165,8 @@ def model():
             y = orm.Optional('Y', reverse='xs')
             owned = orm.Set('Y', reverse='owner')
             tags = orm.Set('T')
+            note = orm.Optional(str)
+            zs = orm.Set('Z', cascade_delete=False)          # required on the other side, no cascade: the foreign key has no ON DELETE action
 
         class Y(db.Entity):
             name = orm.Required(str, unique=True)
@@ -174,24 +176,30 @@ def model():
         class T(db.Entity):
             name = orm.Required(str, unique=True)
             xs = orm.Set(X)
+
+        class Z(db.Entity):
+            name = orm.Required(str, unique=True)
+            p = orm.Required(X)
         db.generate_mapping(create_tables=True)
-        _M = types.SimpleNamespace(db=db, X=X, Y=Y, T=T)
+        _M = types.SimpleNamespace(db=db, X=X, Y=Y, T=T, Z=Z)
     return _M
 
 
 def _reset_data(M):
     with orm.db_session:
-        for t in ('T_X', 'X', 'Y', 'T'): M.db.execute('delete from "%s"' % t)
+        for t in ('T_X', 'Z', 'X', 'Y', 'T'): M.db.execute('delete from "%s"' % t)
         M.db.execute("insert into Y(id, name, owner) values (1, 'y0', null)")
-        M.db.execute("insert into X(id, name, y) values (1, 'x0', 1)")
+        M.db.execute("insert into X(id, name, y, note) values (1, 'x0', 1, '')")
         M.db.execute("insert into T(id, name) values (1, 't0')")
         M.db.execute("insert into T_X(t, x) values (1, 1)")
+        M.db.execute("insert into Z(id, name, p) values (1, 'z0', 1)")
 
 
 class RefModel(object):
     """reference semantics of the scripts: names -> rows; `pending` = created and not yet flushed"""
     def __init__(self):
         self.x = {'x0': 'y0'}; self.y = {'y0': None}; self.t = {'t0'}; self.links = {('t0', 'x0')}
+        self.z = {'z0': 'x0'}; self.note = {}
         self.pending = set(); self.cycle = False
 
     def op(self, name):
@@ -207,8 +215,13 @@ class RefModel(object):
         elif name == 'y1.owner=x1': self._need(x, 'x1'); self._need(y, 'y1'); y['y1'] = 'x1'
         elif name == 'x0.y=y1': self._need(x, 'x0'); self._need(y, 'y1'); x['x0'] = 'y1'
         elif name == 'y0.owner=x1': self._need(x, 'x1'); self._need(y, 'y0'); y['y0'] = 'x1'
+        elif name in ('ex0', 'ex1'): self._need(x, name[1:]); self.note[name[1:]] = 'edited'
+        elif name == 'z0.p=x1': self._need(x, 'x1'); self._need(self.z, 'z0'); self.z['z0'] = 'x1'
+        elif name == 'dz0': self._need(self.z, 'z0'); del self.z['z0']
         elif name in ('dx0', 'dx1'):
-            n = name[1:]; self._need(x, n); del x[n]; self.pending.discard(n)
+            n = name[1:]; self._need(x, n)
+            if n in self.z.values(): raise LookupError('refused: a required dependent without cascade')          # such a delete is refused (C15); not a script of this family
+            del x[n]; self.pending.discard(n); self.note.pop(n, None)
             for k2 in y:
                 if y[k2] == n: y[k2] = None
             self.links = {l for l in self.links if l[1] != n}
@@ -246,10 +259,11 @@ class RefModel(object):
         else: self.pending = set()
 
     def rows(self):
-        return dict(x=sorted(self.x.items()), y=sorted(self.y.items()), t=sorted(self.t), links=sorted(self.links))
+        return dict(x=sorted(self.x.items()), y=sorted(self.y.items()), t=sorted(self.t), links=sorted(self.links), z=sorted(self.z.items()), note=sorted(self.note.items()))
 
 
-OPS = ['cx1', 'cx1y0', 'cx1y1', 'cy1', 'cy1x0', 'cy1x1', 'x1.y=y1', 'y1.owner=x1', 'x0.y=y1', 'y0.owner=x1', 'dx0', 'dx1', 'dy0', 'dy1', 't0+x1', 't0-x0', 'ct1x1', 'dt0']
+OPS = ['cx1', 'cx1y0', 'cx1y1', 'cy1', 'cy1x0', 'cy1x1', 'x1.y=y1', 'y1.owner=x1', 'x0.y=y1', 'y0.owner=x1', 'dx0', 'dx1', 'dy0', 'dy1', 't0+x1', 't0-x0', 'ct1x1', 'dt0',
+       'ex0', 'ex1', 'z0.p=x1', 'dz0']
 
 
 def _valid(seq):
@@ -270,7 +284,8 @@ def _key_reuse(seq):
     return False
 
 
-EXTRA = [('cx1', 'cy1x0', 'dx1', 'cx1', 'y1.owner=x1'), ('cy1', 'cx1y0', 'dy1', 'cy1', 'x1.y=y1'), ('cx1', 'cy1x0', 'dx1', 'cx1', 'dy1'), ('cx1', 'cy1x1', 'x1.y=y1', 'dt0')]
+EXTRA = [('cx1', 'z0.p=x1', 'dx0', 'dz0'), ('cx1', 'ex0', 'z0.p=x1', 'dx0'), ('ex0', 'cx1', 'z0.p=x1', 'dx0'), ('ex0', 'dy0', 'dz0', 'dx0'), ('cx1', 'ex1', 'z0.p=x1', 'dz0', 'dx1'),
+         ('cx1', 'cy1x0', 'dx1', 'cx1', 'y1.owner=x1'), ('cy1', 'cx1y0', 'dy1', 'cy1', 'x1.y=y1'), ('cx1', 'cy1x0', 'dx1', 'cx1', 'dy1'), ('cx1', 'cy1x1', 'x1.y=y1', 'dt0')]
 
 
 def _sc_configs(tier):
@@ -279,10 +294,12 @@ def _sc_configs(tier):
     for L in range(1, n + 1):
         for seq in itertools.product(OPS, repeat=L):
             if not _valid(seq): continue
-            out.append(dict(script=' ; '.join(seq), flush_between=False, key_reuse=_key_reuse(seq)))
-            if L == 3 and tier == 'thorough' or L == 2: out.append(dict(script=' ; '.join(seq), flush_between=True, key_reuse=_key_reuse(seq)))
+            out.append(dict(script=' ; '.join(seq), flush_between=False, key_reuse=_key_reuse(seq), preload=False))
+            # with everything loaded beforehand no operation needs a query, so nothing is flushed until the end: the whole script is ONE flush
+            if L <= 3 or tier == 'thorough' and L == 4: out.append(dict(script=' ; '.join(seq), flush_between=False, key_reuse=_key_reuse(seq), preload=True))
+            if L == 3 and tier == 'thorough' or L == 2: out.append(dict(script=' ; '.join(seq), flush_between=True, key_reuse=_key_reuse(seq), preload=False))
     if tier != 'thorough':
-        out.extend(dict(script=' ; '.join(seq), flush_between=False, key_reuse=_key_reuse(seq)) for seq in EXTRA)
+        out.extend(dict(script=' ; '.join(seq), flush_between=False, key_reuse=_key_reuse(seq), preload=pl) for seq in EXTRA for pl in (False, True))
     return out
 
 
@@ -299,6 +316,9 @@ def _apply(M, name):
     elif name == 'y1.owner=x1': gy('y1').owner = gx('x1')
     elif name == 'x0.y=y1': gx('x0').y = gy('y1')
     elif name == 'y0.owner=x1': gy('y0').owner = gx('x1')
+    elif name in ('ex0', 'ex1'): gx(name[1:]).note = 'edited'
+    elif name == 'z0.p=x1': M.Z.get(name='z0').p = gx('x1')
+    elif name == 'dz0': M.Z.get(name='z0').delete()
     elif name[0] == 'd' and name[1] == 'x': gx(name[1:]).delete()
     elif name[0] == 'd' and name[1] == 'y': gy(name[1:]).delete()
     elif name == 't0+x1': gt('t0').xs.add(gx('x1'))
@@ -312,7 +332,8 @@ def _db_rows(M):
     con = M.db.provider.pool.con
     q = lambda s: sorted(con.execute(s).fetchall())
     return dict(x=q('select X.name, Y.name from X left join Y on X.y = Y.id'), y=q('select Y.name, X.name from Y left join X on Y.owner = X.id'),
-                t=[r[0] for r in q('select name from T')], links=q('select T.name, X.name from T_X join T on T.id = T_X.t join X on X.id = T_X.x')), \
+                t=[r[0] for r in q('select name from T')], links=q('select T.name, X.name from T_X join T on T.id = T_X.t join X on X.id = T_X.x'),
+                z=q('select Z.name, X.name from Z join X on Z.p = X.id'), note=q("select name, note from X where note <> ''")), \
         con.execute('PRAGMA foreign_key_check').fetchall(), con.execute('select count(*) from T_X').fetchone()[0]
 
 
@@ -345,6 +366,10 @@ def _sc_case(cfg, values):
         st['patch'].set(core.SessionCache, 'flush', flush)
         try:
             with orm.db_session:
+                if cfg['preload']:
+                    for E in (M.X, M.Y, M.T, M.Z): list(E.select())
+                    for x in M.X.select(): list(x.tags); list(x.zs); list(x.owned)
+                    for y in M.Y.select(): list(y.xs)
                 for k, o in enumerate(seq):
                     _apply(M, o); ref.op(o)
                     if cfg['flush_between'] and k < len(seq) - 1: orm.flush()
@@ -366,7 +391,7 @@ def _sc_spec(cfg, i, path):
         return st['exc'] is not None and isinstance(st['exc'], (core.UnresolvableCyclicDependency, core.CommitException)) and st['after'] == st['before']
     if st['exc'] is not None: return False                                   # orderable: the flush must succeed under immediate foreign keys
     want = ref.rows()
-    got = dict(st['after']); got['x'] = [tuple(r) for r in got['x']]; got['y'] = [tuple(r) for r in got['y']]; got['links'] = [tuple(r) for r in got['links']]
+    got = {k: [tuple(r) if isinstance(r, (tuple, list)) else r for r in v] for k, v in st['after'].items()}
     return got == want and st['nlinks'] == len(want['links'])
 
 
@@ -377,5 +402,5 @@ CONTRACTS = [
     Contract('scripts_under_immediate_foreign_keys', ['pony.orm.core:SessionCache.flush', 'pony.orm.core:Entity._save_', 'pony.orm.core:Entity._save_principal_objects_',
                                                        'pony.orm.core:SessionCache._calc_modified_m2m', 'pony.orm.core:Set.add_m2m', 'pony.orm.core:Set.remove_m2m', 'pony.orm.core:Entity._delete_'],
              _sc_configs, _sc_case, [('orderable_scripts_commit_and_match_the_model_cycles_are_refused', _sc_spec)], level='bounded',
-             bound='all valid scripts of length <= 3 (thorough: 5) over an 18-operation alphabet on 3 entities (two opposite many-to-one references, one many-to-many)', budget=100),
+             bound='all valid scripts of length <= 3 (thorough: 5) over a 22-operation alphabet on 4 entities (two opposite optional many-to-one references, one required many-to-one without cascade, one many-to-many, edits of a plain attribute)', budget=100),
 ]
